@@ -22,6 +22,13 @@ UNIT = {
      'rewrites': [{'rule': 'R5', 'regex': r'Some\(&(\w+)\)\s*=>\s*\{', 'replace': r'Some(\1_) => { let \1 = *\1_;', 'count': '*'},
                   {'rule': 'R5', 'regex': r'Some\(&(\w+)\)\s*=>\s*([^,{}]*),', 'replace': r'Some(\1_) => { let \1 = *\1_; \2 },', 'count': '*'}]},
 
+  # same text and contract as in unit xreftable (proved again here, nothing assumed): present so that a NEW call site inside this
+  # unit's functions is a call-site obligation (the `_ => panic!()` arm) instead of "no method named get_gen_nr" (UNDECIDED)
+  'XRef::get_gen_nr': {'kind': 'fn', 'file': X, 'container': r'^impl XRef$', 'name': 'get_gen_nr', 'props': ['C02', 'C18', 'C01'],
+     # only call site in /repo: XRefTable::add_entries_from, on an entry of a section (Free | Raw | Stream), see units/xreftable/NOTES.md
+     'requires': ['!(*self is Promised)', '!(*self is Invalid)'],
+     'ensures': [('gen_exact', 'r == gen_of(*self)')]},
+
   # R2: all fields kept (the type parameters OC, SC, L stay abstract), widened to pub
   'struct Storage': {'kind': 'decl', 'file': FILE, 'header': r'^pub struct Storage<B, OC, SC, L>$',
      'rewrites': [{'rule': 'R2', 'find': f, 'replace': 'pub ' + f} for f in
